@@ -31,6 +31,7 @@ func TestC04(t *testing.T) { ev.Check(t, "C04", "crash", genC04, ExecC04) }
 func genC05(t *rapid.T) Case {
 	c := Case{Prof: "c05", Roots: rapid.IntRange(1, 2).Draw(t, "roots"), MaxDir: 100, Others: rapid.IntRange(0, 2).Draw(t, "others")}
 	c.Keys = GenKeys(t, 2, 3, false)
+	c.KeysHex = GenBinKeys(t)
 	cross := rapid.Bool().Draw(t, "crossProcess")
 	nseg := rapid.IntRange(2, 4).Draw(t, "segments")
 	for s := 0; s < nseg; s++ {
